@@ -171,6 +171,43 @@ def known_class(name):
     return deco
 
 
+def _walk(n):
+    if n is None or isinstance(n, str):
+        return
+    if isinstance(n, list):
+        for e in n:
+            yield from _walk(e)
+        return
+    yield n
+    for s in type(n).__slots__:
+        if s not in ("coord", "__weakref__"):
+            yield from _walk(getattr(n, s))
+
+
+def ast_class(pred):
+    """known-finding class decided on the implementation's AST of the input"""
+    def f(text, problem):
+        try:
+            ast = parse_impl_ast(text)
+        except Exception:
+            return False
+        return any(pred(n) for n in _walk(ast))
+    return f
+
+
+def _cn(n):
+    return type(n).__name__
+
+
+KNOWN_CLASSES["tagonly_decl_with_quals"] = ast_class(lambda n: _cn(n) == "Decl" and n.name is None and n.quals and _cn(n.type) in ("Struct", "Union", "Enum"))
+KNOWN_CLASSES["int_const_member"] = ast_class(lambda n: _cn(n) == "StructRef" and n.type == "." and _cn(n.name) == "Constant" and "int" in n.name.type)
+KNOWN_CLASSES["forinit_multi"] = ast_class(lambda n: _cn(n) == "For" and _cn(n.init) == "DeclList" and len(n.init.decls) > 1)
+KNOWN_CLASSES["static_assert_low_prec"] = ast_class(lambda n: _cn(n) == "StaticAssert" and _cn(n.cond) in ("Assignment", "ExprList"))
+KNOWN_CLASSES["assign_lvalue_low_prec"] = ast_class(lambda n: _cn(n) == "Assignment" and _cn(n.lvalue) in ("ExprList", "TernaryOp", "Assignment"))
+KNOWN_CLASSES["multi_alignas"] = ast_class(lambda n: _cn(n) == "Decl" and isinstance(n.align, list) and len(n.align) > 1)
+KNOWN_CLASSES["pragma_operator"] = ast_class(lambda n: _cn(n) == "Pragma" and not isinstance(n.string, str))
+
+
 def replay_known(ctx, oracle):
     """Replay every listed finding of this property on the implementation: print KNOWN-FINDING if it
     still fails; a finding that no longer fails is simply not reported."""
